@@ -379,7 +379,7 @@ Qed.
 Definition cli_hyps (is_gitref : option pystr -> bool) (args : list pystr) : Prop :=
   is_gitref None = true /\ is_gitref (Some head_name) = true /\ Forall (fun a => a <> []) args.
 
-Lemma truthy_some x : x <> [] -> truthy (Some x) = true.
+Lemma truthy_some (x : pystr) : x <> [] -> truthy (Some x) = true.
 Proof. destruct x; [congruence | reflexivity]. Qed.
 
 Theorem cli_short_or_ref F is_gitref args :
@@ -411,7 +411,7 @@ Proof.
   - apply cli_short_or_ref; [exact H | right; eauto].
   - inversion Hne as [|? ? Nx Hne']; subst. inversion Hne' as [|? ? Ny _]; subst.
     unfold main_mode, spec_mode, parse_positionals, resolve_diff_args.
-    rewrite (truthy_some x Nx), (truthy_some y Ny), Ex, Hf. simpl. rewrite Hh, Hn, Ex. reflexivity.
+    rewrite (truthy_some x Nx), (truthy_some y Ny), Ex, Hf. simpl. rewrite Hh, Hn. reflexivity.
 Qed.
 
 (* three or more paths, the first not a reference, base = remote = None: the base side is read from the working
